@@ -6,7 +6,7 @@ WT=/tmp/wt-mut-$$
 git -C /repo worktree add -q --detach "$WT" HEAD || exit 2
 if ! git -C "$WT" apply "$PATCH"; then echo "PATCH DOES NOT APPLY"; git -C /repo worktree remove --force "$WT"; exit 2; fi
 (cd "$WT" && GOFLAGS=-mod=mod GOPROXY=off go build ./... ) || echo "MUTANT DOES NOT BUILD"
-VERIF_REPO="$WT" /verif/check "$P" --tier "$TIER"; RC=$?
+VERIF_EVIDENCE_DIR=/tmp/mut-evidence VERIF_REPLAY_DIR=/tmp/mut-replays VERIF_REPO="$WT" /verif/check "$P" --tier "$TIER"; RC=$?
 git -C /repo worktree remove --force "$WT"
 # restore Gen for the real tree
 /verif/.build/extract -repo /repo -out /verif/lean/OsmVerif/Gen >/dev/null
